@@ -107,6 +107,10 @@ def angle_law_of_cosines(ctx, n):
     chb, chc, cha = -spec.mink(hx, hy), -spec.mink(hx, hz), -spec.mink(hy, hz)
     shb, shc = np.sqrt(chb * chb - 1), np.sqrt(chc * chc - 1)
     ctx.ensure_eq('hyperbolic_law_of_cosines', ca * shb * shc, chb * chc - cha, tol=1e-6)
+    # tangent vectors given by ambient data that is not orthogonal to the basepoint: the directions towards q, r as the points' own coordinates
+    ang2 = h.TangentVector(h.Point(np.array(x, copy=True)), np.array(y, copy=True)).angle(h.TangentVector(h.Point(np.array(x, copy=True)), np.array(z, copy=True)))
+    ca2 = ctx.arg_of(ang2, 'arccos')
+    ctx.ensure_eq('law_of_cosines_from_ambient_vectors', ca2 * shb * shc, chb * chc - cha, tol=1e-6)
 
 
 @bounded(P, "sampling", functions=[H + "Polygon.regular_polygon", H + "regular_polygon_radius", H + "polygon_interior_angle", H + "genus_g_surface_radius",
@@ -149,6 +153,16 @@ def sampling(tier, rng, rep):
             a, b, c = q.distance(r), p.distance(q), p.distance(r)
             if not (abs(np.cosh(a) - (np.cosh(b) * np.cosh(c) - np.sinh(b) * np.sinh(c) * np.cos(A))) <= 1e-6 * np.cosh(a)):
                 rep.fail("law_of_cosines", f"angle {A}", inp)
+            # the same angle from tangent vectors given by ambient data that is NOT orthogonal to the basepoint (the class projects it):
+            # the vector "towards q" given as q's hyperboloid coordinates, and a tangent vector plus a multiple of the basepoint
+            hp_, hq_, hr_ = (np.asarray(u.coords("hyperboloid"), dtype=float) for u in (p, q, r))
+            cmul = float(rng.uniform(-3, 3))
+            for nm_, (va, vb) in {"hyperboloid_coordinates_of_the_targets": (hq_, hr_), "tangent_plus_multiple_of_basepoint": (np.asarray(tv.proj_data, dtype=float)[..., 1, :] + cmul * hp_, 2.5 * hr_ - cmul * hp_),
+                                   "scaled_basepoint_representative": (hq_ * 1.0, hr_ * 0.3)}.items():
+                pb = h.Point(hp_ * (-2.0 if nm_.startswith("scaled") else 1.0))
+                A2 = h.TangentVector(pb, va.copy()).angle(h.TangentVector(pb, vb.copy()))
+                if not (abs(np.cosh(a) - (np.cosh(b) * np.cosh(c) - np.sinh(b) * np.sinh(c) * np.cos(A2))) <= 1e-6 * np.cosh(a)):
+                    rep.fail("law_of_cosines", f"tangent vectors given as {nm_}: angle {A2} (from unit tangents: {A})", {**inp, "tangent_data": nm_})
             M0 = p.origin_to()
             if not np.all(np.abs((M0 @ h.Point.get_origin(n)).coords("klein") - kp) <= 1e-7):
                 rep.fail("origin_to_hits_point", "", inp)
